@@ -38,7 +38,7 @@ PROPS = {
     'C15': _p('exploration'),
     'C16': _p('exploration'),
     'C17': _p('proof', explanation='is_monogamous and degrees proved; acyclicity bounded', dev_profile=True),
-    'C18': _p('exploration'),
+    'C18': _p('proof', explanation='validate iff + error variants and is_monomorphism proved; convexity bounded'),
     'C19': _p('exploration'),
     'C20': _p('exploration'),
 }
